@@ -149,9 +149,6 @@ class stDAG(AbstractSourceSinkGraph):
         G_nx.add_nodes_from(self.nodes())
 
         for u, v in self.edges():
-            # the cost of each path is 1
-            cost = 1 if u == self.source else 0
-
             edge_demand = int(u != self.source and v != self.sink)
             if (u, v) in edges_to_ignore_set:
                 edge_demand = 0
@@ -192,16 +189,19 @@ class stDAG(AbstractSourceSinkGraph):
         G_nx.add_nodes_from(self.nodes())
 
         for u, v in self.edges():
-            # the cost of each path is 1
-            cost = 1 if u == self.source else 0
-
             edge_demand = int(u != self.source and v != self.sink)
             if weight_function is not None:
                 edge_demand = weight_function.get((u, v), 0)
 
             demand[(u, v)] = edge_demand
+
+        # no edge of a minimum flow carries more than the sum of all demands
+        capacity = max(graphutils.bigNumber, sum(demand.values()))
+        for u, v in self.edges():
+            # the cost of each path is 1
+            cost = 1 if u == self.source else 0
             # adding the edge
-            G_nx.add_edge(u, v, l=demand[(u, v)], u=graphutils.bigNumber, c=cost)
+            G_nx.add_edge(u, v, l=demand[(u, v)], u=capacity, c=cost)
 
         minFlowCost, minFlow = graphutils.min_cost_flow(G_nx, self.source, self.sink)
 
